@@ -386,7 +386,7 @@ def model_item(item, ids, alts=None):
             out[k] = item[k]
     if 'v' in item:
         out['v'] = model_operand(item['v'])
-    if op in ('setAttr', 'setValues'):
+    if op in ('setAttr', 'setValues', 'setStrict'):
         out['alts'] = list(alts or [])
     if op in ('setPosSlice',):
         out['a'], out['b'] = item.get('a'), item.get('b')
@@ -460,7 +460,8 @@ def run_case(case, observer=None):
         observer(obj, None, None, None, None, decl)
     for item in case['ops']:
         alts = (closest(item['name'], decl) if item['op'] == 'setAttr' else
-                closest('values', decl) if item['op'] == 'setValues' else None)
+                closest('values', decl) if item['op'] == 'setValues' else
+                closest('strict', decl) if item['op'] == 'setStrict' else None)
         before = snapshot(obj) if observer else None
         out, exc = apply_item(obj, item)
         if item['op'] in READS:
